@@ -76,6 +76,9 @@ func refersToNUL(in []byte) bool {
 	return false
 }
 
+// an unterminated numeric reference of more than 31 digits directly in front of another reference
+var reLongOpenRef = regexp.MustCompile(`&#[xX]?[0-9a-fA-F]{31,}&`)
+
 func c17Entity(c *engine.Ctx, in []byte, args map[string]string) {
 	rev := c17RevMaps[args["rev"]]
 	arr, b := spareCopy(in)
@@ -93,11 +96,19 @@ func c17Entity(c *engine.Ctx, in []byte, args map[string]string) {
 	}
 	again := parse.ReplaceEntities(append([]byte{}, res...), c17Entities, rev)
 	if !bytes.Equal(again, res) {
-		c.Fail("entities-not-idempotent", fmt.Sprintf("ReplaceEntities(%q)=%q, applied again gives %q", in, res, again))
+		clause := "entities-not-idempotent"
+		if reLongOpenRef.Match(in) {
+			clause = "entities-not-idempotent:long-unterminated-reference"
+		}
+		c.Fail(clause, fmt.Sprintf("ReplaceEntities(%q)=%q, applied again gives %q", in, res, again))
 	}
 	if !refersToNUL(in) {
 		if a, b := stdhtml.UnescapeString(string(res)), stdhtml.UnescapeString(string(in)); a != b {
-			c.Fail("entities-change-text", fmt.Sprintf("ReplaceEntities(%q)=%q decodes to %q, the input decodes to %q", in, res, a, b))
+			clause := "entities-change-text"
+			if reLongOpenRef.Match(in) {
+				clause = "entities-change-text:long-unterminated-reference"
+			}
+			c.Fail(clause, fmt.Sprintf("ReplaceEntities(%q)=%q decodes to %q, the input decodes to %q", in, res, a, b))
 		}
 	}
 	if !bytes.Equal(res, in) {
@@ -357,7 +368,7 @@ func c17Work(c *engine.Ctx) {
 			}
 		}
 		for _, ref := range refs {
-			for _, before := range []string{"", "a", "&", "&#x", "&#"} {
+			for _, before := range []string{"", "a", "&", "&#x", "&#", "&#x" + strings.Repeat("0", 28) + "4", "&#x" + strings.Repeat("0", 31) + "4", "&#" + strings.Repeat("0", 40) + "6", "&#x" + strings.Repeat("1", 33)} {
 				for _, after := range []string{"", "a", ";", "1", "&amp;"} {
 					k++
 					if !c.Mine(k) {
@@ -397,7 +408,7 @@ func c17Finish(c *engine.Ctx, cov map[string]interface{}) string {
 func init() {
 	register(&engine.Check{
 		ID: "C17", Level: "exploration",
-		Rule:        "ReplaceMultipleWhitespace on all strings ≤8 over {space,\\t,\\n,\\r,\\f,a,b} and ≤5 over blanks, control bytes, 0x85 and 0xA0, and with every byte value next to and between whitespace, vs a regexp reference; ReplaceEntities on all sequences ≤5 over 22 entity fragments × 3 reverse maps: never longer, idempotent, html.UnescapeString unchanged (NUL references excepted), result is a prefix of the argument; the same on 600 numeric references of up to 25 digits (values at and beyond 2^32, 2^63 and 2^64) × 25 contexts; the combined function == ReplaceEntities∘ReplaceMultipleWhitespace on all sequences ≤5 over 17 fragments; html.EscapeAttrVal on all values ≤4 over 16 atoms × origQuote × mustQuote × 3 buffers and xml.EscapeAttrVal ≤5: read back through the lexer as one attribute whose value decodes to the same text, quoting policy, shortest quote; xml.EscapeCDATAVal on all strings ≤7 over {a < & ] > l t ;}",
+		Rule:        "ReplaceMultipleWhitespace on all strings ≤8 over {space,\\t,\\n,\\r,\\f,a,b} and ≤5 over blanks, control bytes, 0x85 and 0xA0, and with every byte value next to and between whitespace, vs a regexp reference; ReplaceEntities on all sequences ≤5 over 22 entity fragments × 3 reverse maps: never longer, idempotent, html.UnescapeString unchanged (NUL references excepted), result is a prefix of the argument; the same on 600 numeric references of up to 25 digits (values at and beyond 2^32, 2^63 and 2^64) × 45 contexts (among them unterminated references of up to 42 digits in front); the combined function == ReplaceEntities∘ReplaceMultipleWhitespace on all sequences ≤5 over 17 fragments; html.EscapeAttrVal on all values ≤4 over 16 atoms × origQuote × mustQuote × 3 buffers and xml.EscapeAttrVal ≤5: read back through the lexer as one attribute whose value decodes to the same text, quoting policy, shortest quote; xml.EscapeCDATAVal on all strings ≤7 over {a < & ] > l t ;}",
 		Assumptions: []string{"entity maps are consistent with HTML (replacement decodes to the same text and is not longer)", "ReplaceMultipleWhitespaceAndEntities is compared with whitespace first, entities second"},
 		Setup:       c17Setup, Work: c17Work, Finish: c17Finish,
 	})
